@@ -171,6 +171,8 @@ func LoadContracts(p *Program) (*ContractSet, error) {
 	cs.GhostMaps["held"] = &GhostMapDecl{Name: "held", Key: "ref", Val: "int", Zero: true, Stable: true}
 	cs.GhostMaps["rheld"] = &GhostMapDecl{Name: "rheld", Key: "ref", Val: "int", Zero: true, Stable: true}
 	cs.GhostMaps["closed"] = &GhostMapDecl{Name: "closed", Key: "ref", Val: "bool"}
+	// sent(ch): number of values the call under verification has sent on ch
+	cs.GhostMaps["sent"] = &GhostMapDecl{Name: "sent", Key: "ref", Val: "int", Zero: true}
 	for _, src := range p.contractSources() {
 		cs.Files = append(cs.Files, src.File)
 		if !src.CommentOnly {
